@@ -51,6 +51,8 @@ def oracle(fn: str, kw: dict):
     prd = lambda c: sum(1 for p, l in ps if p == c)
     corr = sum(1 for p, l in ps if p == l)
     avg = kw.get("average", "micro")
+    if avg in ("none", "None"):
+        avg = None
     present = [c for c in range(C) if sup(c) or prd(c)]
     if fn == "binary_accuracy":
         return [Fr(corr, n)] if n else [math.nan]
@@ -67,6 +69,8 @@ def oracle(fn: str, kw: dict):
             ok = [sum(1 for x in r if x > r[l]) < k for r, l in zip(rows, labs)]
         else:
             ok = [p == l for p, l in ps]
+        if avg == "weighted":
+            return None          # not an option of multiclass_accuracy: the parameter check raises (no textbook value to compare)
         if avg == "micro":
             return [Fr(sum(ok), n)] if n else [math.nan]
         cc = [sum(1 for o, l in zip(ok, labs) if o and l == c) for c in range(C)]
@@ -136,7 +140,7 @@ def binary_cases(rng: Rng, tier):
                     for fn in fns:
                         kw = {"input": ft(xs), "target": it(ys), "threshold": float(thr)}
                         if fn == "binary_confusion_matrix":
-                            kw["normalize"] = rng.choice([None, "all", "pred", "true"])
+                            kw["normalize"] = rng.choice([None, "none", "all", "pred", "true"])
                         yield fn, kw, ("exh", n)
     for _ in range(600 if tier == "thorough" else 120):
         n = rng.choice([1, 2, 3, 5, 8, 17, 64])
@@ -145,7 +149,7 @@ def binary_cases(rng: Rng, tier):
         fn = rng.choice(fns)
         kw = {"input": ft(xs), "target": it(ys), "threshold": float(rng.choice(G5))}
         if fn == "binary_confusion_matrix":
-            kw["normalize"] = rng.choice([None, "all", "pred", "true"])
+            kw["normalize"] = rng.choice([None, "none", "all", "pred", "true"])
         yield fn, kw, ("rnd", n)
 
 
@@ -179,9 +183,14 @@ def multiclass_cases(rng: Rng, tier):
         fn = rng.choice(fns)
         kw = {"input": ft([v for r in rows for v in r], shape=(n, C)), "target": it(ls), "num_classes": C}
         if fn == "multiclass_confusion_matrix":
-            kw["normalize"] = rng.choice([None, "all", "pred", "true"])
+            kw["normalize"] = rng.choice([None, "none", "all", "pred", "true"])
         else:
             kw["average"] = rng.choice(AVGS if fn != "multiclass_accuracy" else ["micro", "macro", None])
+            if kw["average"] is None and rng.random() < 0.4:
+                # the documented string spellings of None
+                syn = {"multiclass_accuracy": "none", "multiclass_precision": "None"}.get(fn)
+                if syn:
+                    kw["average"] = syn
             if fn == "multiclass_accuracy":
                 kw["k"] = rng.randint(1, C)
         yield fn, kw, ("logit", C, n)
